@@ -32,6 +32,7 @@ import (
 	"math/big"
 	"math/rand"
 	"os"
+	"runtime"
 	"sort"
 	"strings"
 	"sync"
@@ -116,7 +117,15 @@ var nodeStrs = [][2]string{{"/u", "a"}, {"/u", "b"}, {"/t", "a"}, {"/u", "ab"}, 
 // "/ua" and "/ub" are the bytes type+id of the nodes /u<a> and /u<b>: PartialUUID of such a predicate = UUID of the node;
 // the text literals "p" and "q" (below) have the UUID that is the PartialUUID of the predicates with those ids.
 // Same bytes in DIFFERENT component positions are harmless for a correct store (separate indexes, position-wise keys).
-var idStrs = []string{"p", "q", "p q", "P", "/ua", "/ub"}
+// "pé" extends "p" by the bytes C3 A9, which are also the first bytes of the varint of some anchors (see anchorPool):
+// an encoding id ++ anchor without a fixed-width anchor field would not be injective.
+var idStrs = []string{"p", "q", "p q", "P", "/ua", "/ub", "pé"}
+
+// the first baseNodes nodes are the ordinary vocabulary; the nodes /o<0> .. /o<1099> after them only serve as objects of the
+// huge-bucket scenario
+const baseNodes = 5
+const extraNodes = 1100
+
 var nodes []*node.Node
 var lits []*literal.Literal
 
@@ -133,6 +142,13 @@ var anchorPool = []anchor{
 	{-9223372037, 145224192, 0},  // the smallest instant whose UnixNano fits in an int64 (1677-09-21)
 	{9223372036, 854775807, 0},   // the largest (2262-04-11)
 	{-62135596800, 0, -7 * 3600}, // the zero instant written in another zone (not IsZero-by-representation)
+	// 14, 15: varint(UnixNano of 14) = C3 A9 ++ varint(UnixNano of 15); used with the ids "p" / "pé"
+	{-1415577601, 999997342, 0}, // 1925-02-21T23:59:59.999997342Z
+	{86400, 0, 0},               // 1970-01-02T00:00:00Z
+	// 16..18: instants BEFORE Go's zero time
+	{-62135596800 - 3600, 0, 0},          // 0000-12-31T23:00:00Z
+	{-62135596800 - 7*3600, 0, 7 * 3600}, // 0001-01-01T00:00:00+07:00
+	{-62135596800 - 86400*300, 5, 0},     // year 0000, spring
 }
 
 func mkTime(a anchor) time.Time {
@@ -153,6 +169,11 @@ func must(err error) {
 func initVocabulary() {
 	for _, ns := range nodeStrs {
 		n, err := node.NewNodeFromStrings(ns[0], ns[1])
+		must(err)
+		nodes = append(nodes, n)
+	}
+	for i := 0; i < extraNodes; i++ {
+		n, err := node.NewNodeFromStrings("/o", fmt.Sprint(i))
 		must(err)
 		nodes = append(nodes, n)
 	}
@@ -228,6 +249,7 @@ type scenario struct {
 	bounds   []anchor // window bounds: stored anchors and +-1ns
 	nNames   int
 	nameStrs []string
+	haveStr  map[string]bool
 }
 
 func (sc *scenario) finish() {
@@ -266,53 +288,76 @@ func (sc *scenario) finish() {
 	sc.selfCheck()
 }
 
+// unfaithful reports two values whose model keys and UUIDs disagree and stops: the store would then treat as one triple
+// what the property (and the model) treat as two, or the other way round (exit status 3, read by the checks).
+func unfaithful(what, a, b string) {
+	emit(map[string]interface{}{"kind": "key_unfaithful", "what": what, "a": a, "b": b})
+	os.Exit(3)
+}
+
+// faithful checks key equal <-> UUID equal over a list of (key, uuid, printed form), in linear time
+func faithful(what string, keys, uuids, strs []string) {
+	byU, byK := map[string]int{}, map[string]int{}
+	for i := range keys {
+		if j, ok := byU[uuids[i]]; ok && keys[j] != keys[i] {
+			unfaithful(what+": different keys, same UUID", strs[j], strs[i])
+		}
+		if j, ok := byK[keys[i]]; ok && uuids[j] != uuids[i] {
+			unfaithful(what+": same key, different UUIDs", strs[j], strs[i])
+		}
+		byU[uuids[i]], byK[keys[i]] = i, i
+	}
+}
+
 // key faithfulness: on this universe and these pools, model key equal <-> UUID equal (component-wise and for triples)
 func (sc *scenario) selfCheck() {
-	for i, a := range sc.univ {
-		for _, b := range sc.univ[i+1:] {
-			if (tkey(a) == tkey(b)) != (a.t.UUID().String() == b.t.UUID().String()) {
-				must(fmt.Errorf("key not faithful to UUID: %q vs %q", a.str, b.str))
-			}
-			if a.str == b.str {
-				must(fmt.Errorf("duplicate universe string %q", a.str))
-			}
+	var k, u, st []string
+	seenStr := map[string]bool{}
+	for _, t := range sc.univ {
+		if seenStr[t.str] {
+			must(fmt.Errorf("duplicate universe string %q", t.str))
 		}
+		seenStr[t.str] = true
+		k, u, st = append(k, tkey(t)), append(u, t.t.UUID().String()), append(st, t.str)
 	}
-	for i, a := range sc.preds {
-		for _, b := range sc.preds[i+1:] {
-			if (pkey(a) == pkey(b)) != (a.p.UUID().String() == b.p.UUID().String()) {
-				must(fmt.Errorf("predicate key not faithful: %v vs %v", a.p, b.p))
-			}
-			if (a.id == b.id) != (a.p.PartialUUID().String() == b.p.PartialUUID().String()) {
-				must(fmt.Errorf("partial key not faithful: %v vs %v", a.p, b.p))
-			}
-		}
+	faithful("triple", k, u, st)
+	k, u, st = nil, nil, nil
+	var pk, pu []string
+	for _, p := range sc.preds {
+		k, u, st = append(k, pkey(p)), append(u, p.p.UUID().String()), append(st, p.p.String())
+		pk, pu = append(pk, fmt.Sprint(p.id)), append(pu, p.p.PartialUUID().String())
 	}
-	for i, a := range sc.objs {
-		for _, b := range sc.objs[i+1:] {
-			if (okey(a) == okey(b)) != (a.o.UUID().String() == b.o.UUID().String()) {
-				must(fmt.Errorf("object key not faithful: %v vs %v", a.o, b.o))
-			}
-		}
+	for _, t := range sc.univ { // also the predicates that only occur in the universe
+		k, u, st = append(k, pkey(t.p)), append(u, t.p.p.UUID().String()), append(st, t.p.p.String())
 	}
-	for i, a := range sc.nodeIx {
-		for _, b := range sc.nodeIx[i+1:] {
-			if nodes[a].UUID().String() == nodes[b].UUID().String() {
-				must(fmt.Errorf("node key not faithful: %v vs %v", nodes[a], nodes[b]))
-			}
-		}
+	faithful("predicate", k, u, st)
+	faithful("partial predicate", pk, pu, st[:len(pk)])
+	k, u, st = nil, nil, nil
+	for _, o := range sc.objs {
+		k, u, st = append(k, okey(o)), append(u, o.o.UUID().String()), append(st, o.o.String())
 	}
+	for _, t := range sc.univ {
+		k, u, st = append(k, okey(t.o)), append(u, t.o.o.UUID().String()), append(st, t.o.o.String())
+	}
+	faithful("object", k, u, st)
+	k, u, st = nil, nil, nil
+	for _, n := range sc.nodeIx {
+		k, u, st = append(k, fmt.Sprint(n)), append(u, nodes[n].UUID().String()), append(st, nodes[n].String())
+	}
+	faithful("node", k, u, st)
 }
 
 func (sc *scenario) addTriple(s int, p *pval, o *oval) {
 	t, err := triple.New(nodes[s], p.p, o.o)
 	must(err)
 	str := t.String()
-	for _, u := range sc.univ {
-		if u.str == str {
-			return
-		}
+	if sc.haveStr == nil {
+		sc.haveStr = map[string]bool{}
 	}
+	if sc.haveStr[str] {
+		return
+	}
+	sc.haveStr[str] = true
 	sc.univ = append(sc.univ, &tval{s: s, p: p, o: o, t: t, str: str})
 }
 
@@ -323,14 +368,21 @@ func randomScenario(r *rand.Rand, usize int, wide bool) *scenario {
 	}
 	// sub-pools
 	nn := 2 + r.Intn(2)
-	sc.nodeIx = r.Perm(len(nodes))[:nn]
+	sc.nodeIx = r.Perm(baseNodes)[:nn]
 	sort.Ints(sc.nodeIx)
 	ids := r.Perm(len(idStrs))[:2]
 	// every other scenario: the same bytes occur in two component positions (predicate id = type+id of a pooled node,
 	// or a text literal = a pooled predicate id)
-	cross := r.Intn(4)
+	cross := r.Intn(6)
 	forceLit := -1
+	ancient := false
+	var extraAnchors []anchor
 	switch cross {
+	case 2: // ids "p" and "pé" with the two anchors whose unpadded encodings would make id ++ anchor ambiguous
+		ids[0], ids[1] = 0, 6
+		extraAnchors = []anchor{anchorPool[14], anchorPool[15]}
+	case 3: // the second predicate id only has anchors BEFORE Go's zero time (0000-.., 0001-01-01T00:00:00+07:00)
+		ancient = true
 	case 0: // predicate id "/ua" together with the node /u<a> (number 0) as subject and as object
 		if ids[0] != 4 && ids[1] != 4 {
 			ids[0] = 4
@@ -356,10 +408,15 @@ func randomScenario(r *rand.Rand, usize int, wide bool) *scenario {
 	for _, i := range r.Perm(len(anchorPool) - 3)[:r.Intn(4)] {
 		as = append(as, anchorPool[3+i])
 	}
-	for _, id := range ids {
+	as = append(as, extraAnchors...)
+	for k, id := range ids {
 		sc.preds = append(sc.preds, mkPred(id, nil))
-		for i := range as {
-			a := as[i]
+		these := as
+		if ancient && k == 1 {
+			these = []anchor{anchorPool[16], anchorPool[17], anchorPool[18]}
+		}
+		for i := range these {
+			a := these[i]
 			sc.preds = append(sc.preds, mkPred(id, &a))
 		}
 	}
@@ -404,13 +461,37 @@ func randomScenario(r *rand.Rand, usize int, wide bool) *scenario {
 	return sc
 }
 
+// hugeScenario: ONE subject and ONE predicate id (immutable and one anchor, alternating) with n different node objects: the
+// master index and the S, P and S+P buckets hold more than 1024 triples (thresholds of chunked / parallel code paths); the
+// query pools are tiny so that the lookups on those buckets stay affordable.
+func hugeScenario(r *rand.Rand, sc *scenario, n int) *scenario {
+	sc.nodeIx = []int{0}
+	a := anchorPool[0]
+	pImm, pT := mkPred(0, nil), mkPred(0, &a)
+	sc.preds = []*pval{pImm, pT}
+	for i := 0; i < n; i++ {
+		o := mkObj(0, baseNodes+i, nil)
+		if i < 2 {
+			sc.objs = append(sc.objs, o)
+		}
+		p := pImm
+		if i%2 == 1 {
+			p = pT
+		}
+		sc.addTriple(0, p, o)
+	}
+	sc.objs = append(sc.objs, mkObj(1, 0, nil))
+	sc.finish()
+	return sc
+}
+
 // wideScenario: a universe of a few hundred triples over the whole vocabulary, so that graphs, buckets and lookup
 // results hold hundreds of elements; the query pools are small random parts of the vocabulary.
 func wideScenario(r *rand.Rand, sc *scenario, usize int) *scenario {
 	var vn []int
 	var vp []*pval
 	var vo []*oval
-	for i := range nodes {
+	for i := 0; i < baseNodes; i++ {
 		vn = append(vn, i)
 	}
 	as := append([]anchor{}, anchorPool[:3]...)
@@ -809,10 +890,11 @@ func (sc *scenario) digestState(objs []storage.Graph, qs []query, los []lopts) u
 
 // ---------------------------------------------------------------- the store under test and its observation
 type world struct {
-	sc    *scenario
-	st    storage.Store
-	objs  []storage.Graph       // graph objects in creation order
-	objIx map[storage.Graph]int // pointer -> creation number
+	sc      *scenario
+	st      storage.Store
+	objs    []storage.Graph       // graph objects in creation order
+	objIx   map[storage.Graph]int // pointer -> creation number
+	pending []opx                 // operations already decided (the remove / re-add echo of an add)
 }
 
 func newWorld(sc *scenario) *world {
@@ -1000,8 +1082,28 @@ func bigBatch(r *rand.Rand, usize, n int) []int {
 }
 
 // ---------------------------------------------------------------- generators
+// sibling: a universe triple that shares one of the three pair keys (S+P id, P id+O, S+O) with t; t itself if there is none
+func (sc *scenario) sibling(r *rand.Rand, t int) int {
+	a := sc.univ[t]
+	var c []int
+	for i, b := range sc.univ {
+		if i != t && ((a.s == b.s && a.p.id == b.p.id) || (a.p.id == b.p.id && okey(a.o) == okey(b.o)) || (a.s == b.s && okey(a.o) == okey(b.o))) {
+			c = append(c, i)
+		}
+	}
+	if len(c) == 0 {
+		return t
+	}
+	return c[r.Intn(len(c))]
+}
+
 func (w *world) randomOp(r *rand.Rand, stored map[int]map[int]bool, big bool) opx {
 	sc := w.sc
+	if len(w.pending) > 0 {
+		o := w.pending[0]
+		w.pending = w.pending[1:]
+		return o
+	}
 	x := r.Intn(100)
 	if len(sc.univ) > 100 && len(w.objs) > 0 && r.Intn(12) != 0 { // wide universe: churn on the FIRST graph object - add most of the universe, then remove most of what is stored, so
 		// that thousands of triples are really added and really removed on one graph object within one history
@@ -1080,6 +1182,19 @@ func (w *world) randomOp(r *rand.Rand, stored map[int]map[int]bool, big bool) op
 		}
 	}
 	if add {
+		if len(is) > 0 && r.Intn(3) == 0 {
+			// echo: remove the triple that was added last (its pair buckets may become empty), then add it again or add a
+			// sibling with the same pair key FIRST in the next batch, with nothing in between
+			t := is[len(is)-1]
+			again := []int{t}
+			if r.Intn(2) == 0 {
+				again = []int{sc.sibling(r, t)}
+			}
+			for j := r.Intn(3); j > 0; j-- {
+				again = append(again, r.Intn(len(sc.univ)))
+			}
+			w.pending = []opx{{kind: "rem", h: h, is: []int{t}}, {kind: "add", h: h, is: again}}
+		}
 		return opx{kind: "add", h: h, is: is}
 	}
 	return opx{kind: "rem", h: h, is: is}
@@ -1213,7 +1328,17 @@ func genHistory(seed int64, idx int, maxops int, usize int, c02, c09 bool, uptoS
 	if wide {
 		usize = 250 + r.Intn(60)
 	}
-	sc := randomScenario(r, usize, wide)
+	huge := idx%96 == 21 // every ninety-sixth history: one subject / one predicate id with 1025..1031 triples
+	var sc *scenario
+	if huge {
+		n := 1025 + r.Intn(7)
+		for p := runtime.GOMAXPROCS(0); p > 1 && n%p == 0; {
+			n++
+		}
+		sc = hugeScenario(r, &scenario{nNames: 3, nameStrs: []string{"?a", "?b", "?A"}}, n)
+	} else {
+		sc = randomScenario(r, usize, wide)
+	}
 	chanCap = len(sc.univ) + 16
 	w := newWorld(sc)
 	out := histOut{Kind: "hist", Idx: idx, Names: sc.nNames, Pools: sc.jPools(), PagesBad: []pageBad{}}
@@ -1231,6 +1356,12 @@ func genHistory(seed int64, idx int, maxops int, usize int, c02, c09 bool, uptoS
 	big := idx%8 == 5 // every eighth history alternates full adds and adversarial removes of 63 .. 4097 triples
 	if big {
 		nops = 8 + r.Intn(7)
+	}
+	if huge { // new; add everything in one batch; remove three; add two of them again
+		all := r.Perm(len(sc.univ))
+		w.pending = []opx{{kind: "new", n: 0}, {kind: "add", h: 0, is: all}, {kind: "rem", h: 0, is: all[:3]},
+			{kind: "add", h: 0, is: all[1:3]}}
+		nops = len(w.pending)
 	}
 	stored := map[int]map[int]bool{}
 	allQ := sc.allQueries()
